@@ -318,70 +318,6 @@ Section PathProps.
   Qed.
 End PathProps.
 
-Section PeriphProps.
-  Variable tbl : combo_table.
-  Variable keys : list key.
-  Notation Chain := (Chain tbl keys).
-  Notation allowed := (allowed tbl keys).
-
-  Lemma filter_cons_split {X} (f : X -> bool) p a rest :
-    filter f p = a :: rest ->
-    exists pre post, p = pre ++ a :: post /\ filter f pre = [] /\ filter f post = rest /\ f a = true.
-  Proof.
-    induction p as [|x p IH]; cbn; [discriminate|]. destruct (f x) eqn:E.
-    - intro H. injection H as -> <-. exists [], p. auto.
-    - intro H. destruct (IH H) as [pre [post [-> [H1 [H2 H3]]]]]. exists (x :: pre), post. cbn. rewrite E. auto.
-  Qed.
-
-  Lemma allowed_periph f prev :
-    allowed f prev = true -> is_periph f = true -> allowed_peripheral keys f prev = true.
-  Proof.
-    unfold Model.allowed. intros H Hp. rewrite Hp in H. destruct (memk f prev); [discriminate|exact H].
-  Qed.
-
-  Lemma zindex_Some n l i : zindex n l = Some i -> i < length l /\ nth i l 0%Z = n.
-  Proof.
-    revert i. induction l as [|x l IH]; intros i; cbn; [discriminate|].
-    destruct (Z.eqb x n) eqn:E.
-    - intro H. injection H as <-. apply Z.eqb_eq in E. split; [lia|exact E].
-    - destruct (zindex n l) as [j|]; cbn; [|discriminate]. intro H. injection H as <-.
-      destruct (IH j eq_refl) as [H1 H2]. split; [lia|exact H2].
-  Qed.
-
-  Lemma periph_increasing_lemma p :
-    length (filter is_periph keys) <= 2 -> Chain p -> increasing (map karg1 (filter is_periph p)).
-  Proof.
-    intros Hlen Hc.
-    assert (Hnd : NoDup (filter is_periph p)) by (apply NoDup_filter, (Chain_NoDup tbl keys); exact Hc).
-    assert (Hincl : incl (filter is_periph p) (filter is_periph keys)).
-    { intros x Hx. apply filter_In in Hx. destruct Hx as [H1 H2]. apply filter_In. split; [|exact H2].
-      apply (Chain_incl tbl keys p Hc). exact H1. }
-    pose proof (NoDup_incl_length Hnd Hincl) as Hl.
-    destruct (filter is_periph p) as [|a [|b [|c P]]] eqn:EP; [exact I|exact I| |cbn in Hl; lia].
-    cbn. split; [|exact I].
-    destruct (filter_cons_split _ _ _ _ EP) as [pre [post [Ep [Hpre [Hpost Ha]]]]].
-    destruct (filter_cons_split _ _ _ _ Hpost) as [m1 [m2 [Epost [Hm1 [Hm2 Hb]]]]]. subst post p.
-    (* a was accepted with no peripheral before it, b with a before it *)
-    pose proof (Chain_split tbl keys _ _ _ Hc) as [_ [Hain Hala]].
-    replace (pre ++ a :: m1 ++ b :: m2) with ((pre ++ a :: m1) ++ b :: m2) in Hc by (rewrite <- app_assoc; reflexivity).
-    pose proof (Chain_split tbl keys _ _ _ Hc) as [_ [Hbin Halb]].
-    apply allowed_periph in Hala; [|exact Ha]. apply allowed_periph in Halb; [|exact Hb].
-    unfold allowed_peripheral in Hala, Halb. rewrite Hpre in Hala.
-    rewrite filter_app in Halb. cbn [filter] in Halb. rewrite Hpre, Ha, Hm1 in Halb. cbn [app] in Halb.
-    (* shape of n_all *)
-    assert (Hna : length (n_all keys) <= 2) by (unfold n_all; rewrite map_length; exact Hlen).
-    destruct (zindex (karg1 b) (n_all keys)) as [[|i]|] eqn:Ez; try discriminate.
-    destruct (zindex_Some _ _ _ Ez) as [Hi Hnth].
-    destruct (n_all keys) as [|x [|y [|z na]]] eqn:Ena; cbn in Hi, Hna; try lia.
-    assert (i = 0) by lia. subst i. cbn in Hnth, Halb. subst y.
-    apply Z.ltb_lt in Halb. apply Z.eqb_eq in Hala. cbn in Hala. lia.
-  Qed.
-End PeriphProps.
-
-Lemma periph_increasing_guarded tbl keys p :
-  g_periph keys = true -> Chain tbl keys p -> increasing (map karg1 (filter is_periph p)).
-Proof. unfold g_periph. intro H. apply Nat.leb_le in H. apply periph_increasing_lemma. exact H. Qed.
-
 (* ---------------------------------------------------------------- reduced_stepwise terminates *)
 Section ReducedProofs.
   Variable tbl : combo_table.
@@ -399,7 +335,7 @@ Section ReducedProofs.
   Lemma collect_members ncoll leaves l :
     In l (fst (collect tbl keys ncoll leaves)) -> exists l0, In l0 leaves /\ snd l = snd l0.
   Proof.
-    unfold collect. destruct (1 <? length (same_model_groups leaves)); cbn [fst].
+    unfold collect. destruct (negb (is_nil (same_model_groups leaves))); cbn [fst].
     - rewrite in_app_iff. intros [H|H].
       + apply filter_In in H. exists l. tauto.
       + apply in_map_iff in H. destruct H as [[i g] [<- Hig]]. apply in_combine_r in Hig.
@@ -415,11 +351,11 @@ Section ReducedProofs.
   Lemma has_actions_snd (l l0 : leaf) : snd l = snd l0 -> has_actions tbl keys l = has_actions tbl keys l0.
   Proof. unfold has_actions. intros ->. reflexivity. Qed.
 
-  Lemma reduced_loop_terminates fuel : forall i leaves created colls single,
+  Lemma reduced_loop_terminates fuel : forall i leaves created colls,
     (forall l, In l leaves -> leaf_inv i l) -> 1 <= fuel -> length keys + 1 <= i + fuel ->
-    snd (fst (reduced_loop tbl keys fuel leaves created colls single)) = true.
+    snd (reduced_loop tbl keys fuel leaves created colls) = true.
   Proof.
-    induction fuel as [|f IH]; intros i leaves created colls single Hinv Hf Hbound; [lia|].
+    induction fuel as [|f IH]; intros i leaves created colls Hinv Hf Hbound; [lia|].
     cbn [reduced_loop].
     destruct (collect tbl keys (length colls) leaves) as [leaves1 newcolls] eqn:Ec.
     assert (Hinv1 : forall l, In l leaves1 -> leaf_inv i l).
@@ -456,7 +392,7 @@ Section ReducedProofs.
       + intros _. cbn [fst snd]. rewrite app_length, (Hlen Hact). cbn. lia.
   Qed.
 
-  Lemma reduced_terminates_lemma : snd (fst (reduced_stepwise tbl keys)) = true.
+  Lemma reduced_terminates_lemma : snd (reduced_stepwise tbl keys) = true.
   Proof.
     unfold reduced_stepwise. apply (reduced_loop_terminates _ 0); [|lia|lia].
     intros l [<-|[]]. split; [constructor|]. split; [intros y []|]. reflexivity.
@@ -475,115 +411,93 @@ Proof. intro H. split; [eapply Chain_NoDup|eapply Chain_incl]; exact H. Qed.
 Section DocRule.
   Local Open Scope Z_scope.
 
-  Lemma increasingb_head a l : increasingb (a :: l) = true -> forall x, In x l -> a < x.
+  Lemma zmin_spec l : forall d, l <> [] -> In (zmin l d) l /\ forall x, In x l -> zmin l d <= x.
   Proof.
-    revert a. induction l as [|b l IH]; intros a H x Hx; [contradiction|].
-    cbn in H. apply andb_true_iff in H. destruct H as [H1 H2]. apply Z.ltb_lt in H1.
-    destruct Hx as [<-|Hx]; [exact H1|]. specialize (IH b H2 x Hx). lia.
+    induction l as [|a l IH]; intros d Hne; [congruence|]. cbn [zmin]. destruct l as [|b l'].
+    - cbn. rewrite Z.min_id. split; [auto|]. intros x [<-|[]]. lia.
+    - destruct (IH a) as [H1 H2]; [discriminate|]. split.
+      + destruct (Z.min_spec a (zmin (b :: l') a)) as [[_ E]|[_ E]]; rewrite E; [left; reflexivity|right; exact H1].
+      + intros x [<-|Hx]; [apply Z.le_min_l|]. specialize (H2 x Hx). pose proof (Z.le_min_r a (zmin (b :: l') a)). lia.
   Qed.
 
-  Lemma increasingb_tail a l : increasingb (a :: l) = true -> increasingb l = true.
-  Proof. destruct l as [|b l]; [reflexivity|]. cbn. intro H. apply andb_true_iff in H. tauto. Qed.
-
-  Lemma increasingb_NoDup l : increasingb l = true -> NoDup l.
+  Lemma zmax_spec l : forall d, l <> [] -> In (zmax l d) l /\ forall x, In x l -> x <= zmax l d.
   Proof.
-    induction l as [|a l IH]; intro H; constructor.
-    - intro Hin. pose proof (increasingb_head a l H a Hin). lia.
-    - apply IH. eapply increasingb_tail. exact H.
+    induction l as [|a l IH]; intros d Hne; [congruence|]. cbn [zmax]. destruct l as [|b l'].
+    - cbn. rewrite Z.max_id. split; [auto|]. intros x [<-|[]]. lia.
+    - destruct (IH a) as [H1 H2]; [discriminate|]. split.
+      + destruct (Z.max_spec a (zmax (b :: l') a)) as [[_ E]|[_ E]]; rewrite E; [right; exact H1|left; reflexivity].
+      + intros x [<-|Hx]; [apply Z.le_max_l|]. specialize (H2 x Hx). pose proof (Z.le_max_r a (zmax (b :: l') a)). lia.
   Qed.
 
-  Lemma NoDup_map_injective {X Y} (h : X -> Y) (l : list X) x y :
-    NoDup (map h l) -> In x l -> In y l -> h x = h y -> x = y.
+  (* the repaired peripheral test is the documented "next count" rule *)
+  Lemma allowed_peripheral_is_next keys f prev :
+    In (karg1 f) (n_all keys) ->
+    allowed_peripheral keys f prev = next_count (n_all keys) (used_counts prev) (karg1 f).
   Proof.
-    induction l as [|a l IH]; cbn; intros Hnd Hx Hy E; [contradiction|].
-    inversion Hnd as [|? ? Ha Hnd']; subst.
-    destruct Hx as [->|Hx]; destruct Hy as [->|Hy]; auto.
-    - exfalso. apply Ha. rewrite E. apply in_map. exact Hy.
-    - exfalso. apply Ha. rewrite <- E. apply in_map. exact Hx.
-  Qed.
-
-  Lemma forallb_all_eq {X} (p : X -> bool) (c : X) (l : list X) :
-    (forall u, In u l -> u = c) -> p c = true -> forallb p l = true.
-  Proof. intros H Hc. apply forallb_forall. intros u Hu. rewrite (H u Hu). exact Hc. Qed.
-
-  Definition allowed_num (na used : list Z) (n : Z) : bool :=
-    match used with
-    | [] => Z.eqb n (zmin na n)
-    | _ :: _ => match zindex n na with Some (S i) => Z.ltb (nth i na 0) n | _ => false end
-    end.
-
-  Lemma periph_rule_num na n used :
-    (length na <= 2)%nat -> increasingb na = true -> In n na ->
-    (forall u, In u used -> In u na /\ u <> n) ->
-    allowed_num na used n = next_count na used n.
-  Proof.
-    intros Hlen Hinc Hn Hused.
-    destruct na as [|a [|b [|c na]]]; [contradiction| | |cbn in Hlen; lia].
-    - destruct Hn as [<-|[]].
-      destruct used as [|u us].
-      + unfold allowed_num, next_count. cbn. rewrite Z.min_id, Z.eqb_refl, Z.leb_refl. reflexivity.
-      + exfalso. destruct (Hused u (or_introl eq_refl)) as [[<-|[]] Hne]. congruence.
-    - cbn in Hinc. rewrite andb_true_r in Hinc. apply Z.ltb_lt in Hinc.
-      destruct Hn as [<-|[<-|[]]].
-      + (* n = a *)
-        assert (Hub : forall u, In u used -> u = b).
-        { intros u Hu. destruct (Hused u Hu) as [[<-|[<-|[]]] Hne]; congruence. }
-        destruct used as [|u us].
-        * unfold allowed_num, next_count. cbn. rewrite Z.min_id.
-          replace (Z.min a b) with a by lia. rewrite Z.eqb_refl, Z.leb_refl.
-          replace (a <=? b) with true by (symmetry; apply Z.leb_le; lia). reflexivity.
-        * rewrite (Hub u (or_introl eq_refl)). unfold allowed_num, next_count. cbn [zindex forallb].
-          rewrite Z.eqb_refl. replace (b <? a) with false by (symmetry; apply Z.ltb_ge; lia). reflexivity.
-      + (* n = b *)
-        assert (Hua : forall u, In u used -> u = a).
-        { intros u Hu. destruct (Hused u Hu) as [[<-|[<-|[]]] Hne]; congruence. }
-        destruct used as [|u us].
-        * unfold allowed_num, next_count. cbn. rewrite Z.min_id.
-          replace (Z.min a b) with a by lia.
-          replace (b =? a) with false by (symmetry; apply Z.eqb_neq; lia).
-          replace (b <=? a) with false by (symmetry; apply Z.leb_gt; lia). reflexivity.
-        * unfold allowed_num, next_count. cbn [zindex].
-          replace (a =? b) with false by (symmetry; apply Z.eqb_neq; lia). rewrite Z.eqb_refl. cbn [option_map nth].
-          replace (a <? b) with true by (symmetry; apply Z.ltb_lt; lia).
-          rewrite (forallb_all_eq (fun u0 => u0 <? b) a (u :: us) Hua) by (apply Z.ltb_lt; lia).
-          cbn [forallb]. rewrite Z.leb_refl.
-          replace (b <=? a) with false by (symmetry; apply Z.leb_gt; lia).
-          assert (existsb (fun u0 => a <=? u0) (u :: us) = true).
-          { apply existsb_exists. exists u. split; [left; reflexivity|]. rewrite (Hua u (or_introl eq_refl)). apply Z.leb_refl. }
-          rewrite H. reflexivity.
+    intro Hn. unfold allowed_peripheral, next_count, used_counts.
+    set (na := n_all keys) in *. set (n := karg1 f) in *. set (used := map karg1 (filter is_periph prev)).
+    assert (Hna : na <> []) by (intro E; rewrite E in Hn; contradiction).
+    apply eq_true_iff_eq. destruct used as [|u us] eqn:Eu.
+    - cbn [forallb andb existsb]. rewrite Z.eqb_eq, forallb_forall. destruct (zmin_spec na n Hna) as [H1 H2]. split.
+      + intros E m Hm. rewrite orb_false_r. apply Z.leb_le. rewrite E. apply H2. exact Hm.
+      + intro H. specialize (H (zmin na n) H1). rewrite orb_false_r in H. apply Z.leb_le in H. specialize (H2 n Hn). lia.
+    - assert (Hu : u :: us <> []) by discriminate. destruct (zmax_spec (u :: us) u Hu) as [M1 M2].
+      set (mx := zmax (u :: us) u) in *.
+      rewrite andb_true_iff, !forallb_forall.
+      destruct (filter (fun m => mx <? m) na) as [|x larger'] eqn:El.
+      + split; [discriminate|]. intros [Hlt _]. exfalso.
+        assert (Hin : In n (filter (fun m => mx <? m) na)).
+        { apply filter_In. split; [exact Hn|]. apply Z.ltb_lt. specialize (Hlt mx M1). apply Z.ltb_lt in Hlt. exact Hlt. }
+        rewrite El in Hin. exact Hin.
+      + assert (Hl : x :: larger' <> []) by discriminate. destruct (zmin_spec (x :: larger') x Hl) as [L1 L2].
+        assert (Hmem : forall m, In m (x :: larger') <-> In m na /\ mx < m).
+        { intro m. rewrite <- El, filter_In, Z.ltb_lt. reflexivity. }
+        rewrite Z.eqb_eq. split.
+        * intro E. apply Hmem in L1. rewrite <- E in L1. destruct L1 as [_ Hgt]. split.
+          -- intros u' Hu'. apply Z.ltb_lt. specialize (M2 u' Hu'). lia.
+          -- intros m Hm. apply orb_true_iff. destruct (Z.ltb_spec mx m) as [Hlt|Hge].
+             ++ left. apply Z.leb_le. rewrite E. apply L2. apply Hmem. auto.
+             ++ right. apply existsb_exists. exists mx. split; [exact M1|apply Z.leb_le; exact Hge].
+        * intros [Hlt Hall]. specialize (Hlt mx M1). apply Z.ltb_lt in Hlt.
+          assert (Hnl : In n (x :: larger')) by (apply Hmem; auto).
+          pose proof (L2 n Hnl) as Hle. apply Hmem in L1. destruct L1 as [Hz1 Hz2].
+          specialize (Hall _ Hz1). apply orb_true_iff in Hall. destruct Hall as [H|H].
+          -- apply Z.leb_le in H. lia.
+          -- apply existsb_exists in H. destruct H as [u' [Hu' Hle']]. apply Z.leb_le in Hle'. specialize (M2 u' Hu'). lia.
   Qed.
 
   Lemma combo_hit_nil tbl f : combo_hit tbl f [] = false.
   Proof. unfold combo_hit. induction tbl as [|[f1 f2] t IH]; [reflexivity|]. cbn. exact IH. Qed.
 
   Lemma allowed_is_documented_lemma tbl keys f prev :
-    g_periph_sorted keys = true -> In f keys -> incl prev keys ->
-    allowed tbl keys f prev = doc_allowed tbl keys f prev.
+    In f keys -> allowed tbl keys f prev = doc_allowed tbl keys f prev.
   Proof.
-    intros Hg Hf Hprev. unfold g_periph_sorted in Hg. apply andb_true_iff in Hg. destruct Hg as [Hlen Hinc].
-    apply Nat.leb_le in Hlen.
-    unfold allowed, doc_allowed. destruct (memk f prev) eqn:Emem; [reflexivity|]. cbn [negb andb].
+    intros Hf. unfold allowed, doc_allowed. destruct (memk f prev) eqn:Emem; [reflexivity|]. cbn [negb andb].
     destruct (is_periph f) eqn:Ep.
-    - (* peripheral feature *)
-      transitivity (allowed_num (n_all keys) (used_counts prev) (karg1 f)).
-      { unfold allowed_peripheral, allowed_num, used_counts. destruct (filter is_periph prev); reflexivity. }
-      apply periph_rule_num.
-      + unfold n_all. rewrite map_length. exact Hlen.
-      + exact Hinc.
-      + unfold n_all. apply in_map. apply filter_In. auto.
-      + intros u Hu. unfold used_counts in Hu. apply in_map_iff in Hu. destruct Hu as [g [<- Hg]].
-        apply filter_In in Hg. destruct Hg as [Hg1 Hg2]. split.
-        * unfold n_all. apply in_map. apply filter_In. split; [apply Hprev; exact Hg1|exact Hg2].
-        * intro E. assert (g = f).
-          { apply (NoDup_map_injective karg1 (filter is_periph keys)).
-            - apply increasingb_NoDup. exact Hinc.
-            - apply filter_In. split; [apply Hprev; exact Hg1|exact Hg2].
-            - apply filter_In. auto.
-            - exact E. }
-          subst g. apply memk_false in Emem. contradiction.
+    - apply allowed_peripheral_is_next. unfold n_all. apply in_map. apply filter_In. auto.
     - destruct (key_eqb f [AS s_TRANSITS; AI 0; AS s_NODEPOT]); [reflexivity|].
       destruct (existsb (fun f0 => atom_eqb (kcat f0) (kcat f)) prev); [reflexivity|].
       destruct prev; [rewrite combo_hit_nil; reflexivity|reflexivity].
+  Qed.
+
+  (* increasing lists *)
+  Lemma increasing_snoc l n : increasing l -> (forall x, In x l -> x < n) -> increasing (l ++ [n]).
+  Proof.
+    induction l as [|a [|b l'] IH]; intros Hl Hn; cbn; auto.
+    - split; [apply Hn; left; reflexivity|exact I].
+    - destruct Hl as [Hab Hl]. split; [exact Hab|]. apply IH; [exact Hl|]. intros x Hx. apply Hn. right. exact Hx.
+  Qed.
+
+  (* peripheral compartments are added in increasing order on every accepted path *)
+  Lemma periph_increasing_lemma tbl keys p :
+    Chain tbl keys p -> increasing (map karg1 (filter is_periph p)).
+  Proof.
+    induction 1 as [|p f Hp IH Hf Ha]; [exact I|].
+    rewrite filter_app, map_app. cbn [filter]. destruct (is_periph f) eqn:Ep; [|cbn; rewrite app_nil_r; exact IH].
+    cbn [map]. apply increasing_snoc; [exact IH|]. intros x Hx.
+    rewrite (allowed_is_documented_lemma tbl keys f p Hf) in Ha. unfold doc_allowed in Ha. rewrite Ep in Ha.
+    apply andb_true_iff in Ha. destruct Ha as [_ Ha]. unfold next_count in Ha. apply andb_true_iff in Ha. destruct Ha as [Ha _].
+    rewrite forallb_forall in Ha. apply Z.ltb_lt. apply Ha. exact Hx.
   Qed.
 End DocRule.
 
@@ -593,22 +507,18 @@ Proof.
   intros x Hx. apply in_app_iff in Hx. destruct Hx as [Hx|[<-|[]]]; auto.
 Qed.
 
-Lemma Chain_iff_DocChain tbl keys p :
-  g_periph_sorted keys = true -> (Chain tbl keys p <-> DocChain tbl keys p).
+Lemma Chain_iff_DocChain tbl keys p : Chain tbl keys p <-> DocChain tbl keys p.
 Proof.
-  intro Hg. split.
+  split.
   - induction 1 as [|p f Hp IH Hf Ha]; [constructor|]. constructor; auto.
-    rewrite <- (allowed_is_documented_lemma tbl keys f p Hg Hf (Chain_incl tbl keys p Hp)). exact Ha.
+    rewrite <- (allowed_is_documented_lemma tbl keys f p Hf). exact Ha.
   - induction 1 as [|p f Hp IH Hf Ha]; [constructor|]. constructor; auto.
-    rewrite (allowed_is_documented_lemma tbl keys f p Hg Hf (DocChain_incl tbl keys p Hp)). exact Ha.
+    rewrite (allowed_is_documented_lemma tbl keys f p Hf). exact Ha.
 Qed.
 
 Lemma stepwise_paths_documented_lemma tbl keys p :
-  g_periph_sorted keys = true ->
-  (In p (fst (exhaustive_stepwise tbl keys)) <-> p <> [] /\ DocChain tbl keys p).
-Proof.
-  intro Hg. rewrite stepwise_paths_exact_lemma, (Chain_iff_DocChain tbl keys p Hg). reflexivity.
-Qed.
+  In p (fst (exhaustive_stepwise tbl keys)) <-> p <> [] /\ DocChain tbl keys p.
+Proof. rewrite stepwise_paths_exact_lemma, (Chain_iff_DocChain tbl keys p). reflexivity. Qed.
 
 (* ---------------------------------------------------------------- reduced_stepwise: the collector step *)
 Section CollectProofs.
@@ -640,20 +550,16 @@ Section CollectProofs.
     - destruct (IH (S n) H) as [i Hi]. exists i. right. exact Hi.
   Qed.
 
-  (* under the guard (not: exactly one group, and that one expandable) every expandable group of equal-feature
-     output tasks gets its 'choose_best_model' task and its members stop being output tasks *)
+  (* every expandable group of equal-feature output tasks gets its 'choose_best_model' task and its members
+     stop being output tasks *)
   Lemma collect_merges_lemma ncoll leaves g :
-    single_group tbl keys leaves = false ->
     In g (same_model_groups leaves) -> forallb (has_actions tbl keys) g = true ->
     (exists i, In (PColl (ncoll + i), snd (hd (PRoot, []) g)) (fst (collect tbl keys ncoll leaves))) /\
     (forall l, In l g -> In l (fst (collect tbl keys ncoll leaves)) -> exists i, fst l = PColl (ncoll + i)).
   Proof.
-    intros Hsingle Hg Hact. unfold collect.
-    assert (Hlen : Nat.ltb 1 (length (same_model_groups leaves)) = true).
-    { unfold single_group in Hsingle. destruct (same_model_groups leaves) as [|g1 [|g2 G]] eqn:EG.
-      - contradiction.
-      - destruct Hg as [<-|[]]. congruence.
-      - reflexivity. }
+    intros Hg Hact. unfold collect.
+    assert (Hlen : negb (is_nil (same_model_groups leaves)) = true).
+    { destruct (same_model_groups leaves); [contradiction|reflexivity]. }
     rewrite Hlen. cbn [fst].
     assert (Hchosen : In g (filter (forallb (has_actions tbl keys)) (same_model_groups leaves))) by (apply filter_In; auto).
     unfold same_model_groups in Hg. apply filter_In in Hg. destruct Hg as [Hg _].
